@@ -121,6 +121,25 @@ def check_seq(seq):
             return bad(f"group_operations({labs}, {cls}) leaves a marked operation in the leading/trailing part")
         if not B and C:
             return bad(f"group_operations({labs}, {cls}): empty B but non-empty C")
+    # 4b. optimize_circuit (C03): never duplicates or loses a feed-forward command, keeps dependency order of the
+    #     commands it keeps, and never grows the circuit
+    opt = pu.optimize_circuit(list(cmds))
+    if len(opt) > len(cmds):
+        return bad(f"optimize_circuit({labs}) grew the circuit to {len(opt)} commands")
+    ids = [id(c) for c in opt]
+    if len(set(ids)) != len(ids):
+        return bad(f"optimize_circuit({labs}) contains a duplicated command: {[str(c) for c in opt]}")
+    for i, it in enumerate(seq):
+        if it[4] or it[1].startswith("Measure"):
+            if ids.count(id(cmds[i])) != 1:
+                return bad(f"optimize_circuit({labs}): command #{i} {labs[i]} (measurement / measured-parameter gate) appears {ids.count(id(cmds[i]))} times in {[str(c) for c in opt]}")
+    kept = [idx[i_] for i_ in ids if i_ in idx]
+    r = respects(kept + [k for k in range(len(seq)) if k not in kept], seq) if False else None
+    pos = {o: k for k, o in enumerate(kept)}
+    for i in kept:
+        for j in kept:
+            if i < j and deps(seq[i]) & deps(seq[j]) and pos[i] > pos[j]:
+                return bad(f"optimize_circuit({labs}) swaps dependent commands #{i} and #{j}")
     # 5. remove_loss keeps order of everything else
     rl = pu.remove_loss(cmds)
     if [idx[id(c)] for c in rl] != [i for i, s in enumerate(seq) if s[1] != "LossChannel"]:
